@@ -34,6 +34,7 @@ static void run_op(const std::vector<std::string> &w, const std::string &, out &
     if (op == "reset") { o.result = "ok"; return; }
     if (op == "seq") return run_seq(w, o);
     if (op == "sizes") return run_sizes(o);
+    if (op == "premain") { run_premain(o); return; }
     if (op == "long") return run_long(w, o);
     if (op == "ctx")
     {
@@ -277,6 +278,7 @@ static void gen(rng &r, const std::string &tier)
     bool th = tier == "thorough";
     puts("ctx");
     puts("sizes");
+    puts("premain");
     gen_sessions(r, th);
     // >= 300 KiB payloads, once per codec: all markers, all escape bytes, mixed
     {
